@@ -10,6 +10,7 @@ import Frp.Engines.Plugin
 import Frp.Engines.Client
 import Frp.Engines.Codec
 import Frp.Engines.Visitor
+import Frp.Engines.Wire
 /-! Registry of driver engines (one line per engine). -/
 namespace Frp.Engines
 open Frp.Proto
@@ -27,5 +28,6 @@ def all : List (String × Engine) :=
   , ("health", health)
   , ("codec", codec)
   , ("visitor", visitor)
+  , ("wire", wire)
   ]
 end Frp.Engines
